@@ -207,7 +207,22 @@ defvjp(anp.dsplit, lambda ans, ary, idxs: lambda g: anp.concatenate(g, axis=2))
 defvjp(anp.ravel, lambda ans, x, order=None: lambda g: anp.reshape(g, anp.shape(x), order=_order_of(x, order)))
 defvjp(anp.expand_dims, lambda ans, x, axis: lambda g: anp.reshape(g, anp.shape(x)))
 defvjp(anp.squeeze, lambda ans, x, axis=None: lambda g: anp.reshape(g, anp.shape(x)))
-defvjp(anp.diag, lambda ans, x, k=0: lambda g: anp.diag(g, k))
+
+
+def grad_diag(ans, x, k=0):
+    if anp.ndim(x) != 2:
+        return lambda g: anp.diag(g, k)
+    rows, cols = anp.shape(x)
+
+    def vjp(g):
+        # anp.diag(g, k) is square; cut / pad it to the (possibly non-square) shape of x
+        square = anp.diag(g, k)[:rows, :cols]
+        return anp.pad(square, ((0, rows - square.shape[0]), (0, cols - square.shape[1])), "constant")
+
+    return vjp
+
+
+defvjp(anp.diag, grad_diag)
 defvjp(anp.flipud, lambda ans, x,: lambda g: anp.flipud(g))
 defvjp(anp.fliplr, lambda ans, x,: lambda g: anp.fliplr(g))
 defvjp(anp.rot90, lambda ans, x, k=1: lambda g: anp.rot90(g, -k))
